@@ -23,11 +23,22 @@ def mmFmix (h : UInt32) : UInt32 :=
   let h := h * 0xc2b2ae35
   h ^^^ (h >>> 16)
 
-/-- body: consume little-endian 4-byte blocks, then the 0–3 byte tail (`tail[2] << 16`, `tail[1] << 8`, `tail[0]`) -/
-def mmBody : UInt32 → Bytes → UInt32
-  | h, a :: b :: c :: d :: rest => mmBody (mmBlock h (UInt32.ofNat (leNat [a, b, c, d]))) rest
-  | h, [] => h
-  | h, t => h ^^^ mmMixK (UInt32.ofNat (leNat t))
+/-- the little-endian 4-byte blocks of the key (`getblock32(blocks, i)`) -/
+def mmWords : Bytes → List UInt32
+  | a :: b :: c :: d :: rest => UInt32.ofNat (leNat [a, b, c, d]) :: mmWords rest
+  | _ => []
+
+/-- the 0–3 bytes after the last full block -/
+def mmTail : Bytes → Bytes
+  | _ :: _ :: _ :: _ :: rest => mmTail rest
+  | t => t
+
+/-- body and tail: fold the blocks, then `k1 = tail[0] | tail[1] << 8 | tail[2] << 16; h1 ^= mix(k1)` when a tail exists -/
+def mmBody (h : UInt32) (data : Bytes) : UInt32 :=
+  let h := (mmWords data).foldl mmBlock h
+  match mmTail data with
+  | [] => h
+  | t => h ^^^ mmMixK (UInt32.ofNat (leNat t))
 
 /-- `MurmurHash3_x86_32(data, len(data), seed)` -/
 def murmur3 (data : Bytes) (seed : UInt32) : UInt32 :=
